@@ -68,6 +68,9 @@ func (e *Embed) GenerateOutput(textOnly bool) string {
 	// TODO: Maybe just to be save we should sanitize it.
 	tagName := dom.TagName(e.Element)
 	if tagName == "blockquote" || tagName == "iframe" {
+		for _, unsafe := range dom.QuerySelectorAll(e.Element, "script,style") {
+			unsafe.Parent.RemoveChild(unsafe)
+		}
 		domutil.StripAttributes(e.Element)
 		dom.AppendChild(embed, e.Element)
 	}
